@@ -3562,9 +3562,11 @@ GRgetlutid(int32 riid, int32 lut_index)
     /* clear error stack and check validity of args */
     HEclear();
 
-    /* check the validity of the RI ID */
+    /* check the validity of the RI ID: of the right kind, and still in use */
     if (HAatom_group(riid) != RIIDGROUP || lut_index != 0)
         HGOTO_ERROR(DFE_ARGS, FAIL);
+    if (HAatom_object(riid) == NULL)
+        HGOTO_ERROR(DFE_RINOTFOUND, FAIL);
 
     ret_value = (riid);
 
